@@ -94,7 +94,8 @@ def check_batch(history, steps, i):
         else:
             n_ok += 1
         expected_state = state_of(twin[i + j].obs)
-    got_state = state_of(st.obs)
+    got_state = histcheck.renumber_state(state_of(st.obs))
+    expected_state = histcheck.renumber_state(expected_state)
     fails = []
     # generated ObjectIds differ between the two runs only in numbering, which canon renumbers
     if got_state != expected_state:
